@@ -227,7 +227,7 @@ Definition t1_attempt (hr0 : Z) (m : list Z) (L : layout) (from cache d : list Z
   : res unit * (list Z * list Z * list Z) * list write :=
   if negb (l_wr L) then (Crash AttributeErr, (m, from, cache), [])
   else if l_cap L <? len d then (Err ValueError, (m, from, cache), [])
-  else run_attempt (t1_unit hr0) (len m) m from cache (t1_phases L d) k f.
+  else run_attempt (t1_unit hr0) (len m) (fun x => x) m from cache (t1_phases L d) k f.
 Fixpoint t1_attempts (hr0 : Z) (L : layout) (d : list Z) (faults : list (nat * fate)) (st : list Z * list Z * list Z)
   : list Z * list Z * list Z :=
   match faults with
